@@ -353,12 +353,8 @@ def document_single_file(file, root, settings: Settings):
         header_name = os.path.basename(file)
 
     if prefix is not None:
-        # If current file dir is same as root dir, replace "." with prefix
-        if header_name == module_path_separator:
-            header_name = prefix
-        else:
-            # Add prefix to beginning of headers
-            header_name = prefix + module_path_separator + header_name
+        # Add prefix to beginning of headers
+        header_name = prefix + module_path_separator + header_name
 
     module_name = header_name
 
